@@ -14,7 +14,11 @@ tvars == <<opts, hist, cur, l, seen>>
 Rec == ndJsonDeserialize(IOEnv.TRACE)
 N == Len(Rec)
 
-TraceInit == opts = DefaultOpts /\ hist = <<>> /\ cur = "startpos" /\ l = 1 /\ seen = {}
+\* seen: function from abstract state to the first observation <<output, process>> made in it (a function, not a set
+\* of triples: membership in its domain is a search in a sorted structure, which keeps long traces linear-ish)
+TraceInit == opts = DefaultOpts /\ hist = <<>> /\ cur = "startpos" /\ l = 1 /\ seen = <<>>
+
+ASSUME TLCSet(2, 0)
 
 Step ==
     /\ l <= N
@@ -27,17 +31,20 @@ Step ==
              [] e.cmd = "go" ->
                    /\ Go(e.d)
                    /\ LET k == <<opts, Append(hist, <<cur, e.d>>)>>
-                          clash == {x \in seen : x[1] = k /\ x[2] # e.out}
-                      IN  /\ ViolAt(clash = {}, "C12", l, "same-state-different-output",
+                          known == k \in DOMAIN seen
+                      IN  /\ ViolAt(~known \/ seen[k][1] = e.out, "C12", l, "same-state-different-output",
                                     [proc |-> e.proc, position |-> cur, depth |-> e.d, history_length |-> Len(hist),
                                      got |-> e.out,
-                                     first |-> IF clash = {} THEN "" ELSE (CHOOSE x \in clash : TRUE)[2],
-                                     first_proc |-> IF clash = {} THEN "" ELSE (CHOOSE x \in clash : TRUE)[3]])
-                          /\ seen' = seen \cup {<<k, e.out, e.proc>>}
+                                     first |-> IF known THEN seen[k][1] ELSE "",
+                                     first_proc |-> IF known THEN seen[k][2] ELSE ""])
+                          /\ seen' = IF known THEN seen ELSE (k :> <<e.out, e.proc>>) @@ seen
+                          /\ TLCSet(2, TLCGet(2) + 1)
 
 \* statistics are printed from the last step (a postcondition cannot read variables)
-Last == l = N => Stat("session", [events |-> N, observations |-> Cardinality(seen'),
-                                  states |-> Cardinality({x[1] : x \in seen'})])
+Last == l = N => Stat("session", [events |-> N, observations |-> TLCGet(2), states |-> Cardinality(DOMAIN seen')])
+
+\* the memo is a history variable: kept out of the fingerprint
+TraceView == <<opts, hist, cur, l>>
 
 TraceSpec == TraceInit /\ [][Step /\ Last]_tvars
 
